@@ -913,6 +913,10 @@ class Twin:
             return int(n["v"])
         if c == "float":
             return n["v"] + 0.5
+        if c == "intfloat":
+            return float(n["v"])
+        if c == "npint":
+            return np.int64(n["v"])
         if c == "nan":
             return float("nan")
         if c == "inf":
